@@ -143,6 +143,34 @@ def setup():
         sh.call, sh.orig = None, c
       sh.cname, sh.reg = cname, reg
       SHAPES[cname] = sh
+  # a configurable subclass that inherits an (already configurable) constructor
+  base = _mk_cls('KBase_for_sub', "a, b='db', *, k='dk'", ['a', 'b', 'k'], False, False, 'init')
+  base = gin.configurable(base)
+  sub = type('Ksub_con', (base,), {'__module__': 'c01probes'})
+  sub = gin.configurable(sub)
+  sh = Shape('class_sub', "a, b='db', *, k='dk'", ['a', 'b'], {'b': 'db', 'k': 'dk'}, ['k'], False, False, 'a', 'k', 'class')
+  sh.cname, sh.reg, sh.call, sh.orig = 'Ksub_con', 'configurable', sub, sub
+  SHAPES['Ksub_con'] = sh
+  # functions already wrapped by an ordinary functools.wraps decorator
+  import functools  # pylint: disable=import-outside-toplevel
+
+  def user_deco(fn):
+    @functools.wraps(fn)
+    def wrapper(*args, **kwargs):
+      return fn(*args, **kwargs)
+    return wrapper
+  for reg in ('configurable', 'external'):
+    cname = 'deco_%s' % reg[:3]
+    fn = user_deco(_mk_fn(cname, "a, b='db', *, k='dk'", ['a', 'b', 'k'], False, False))
+    sh = Shape('decorated', "a, b='db', *, k='dk'", ['a', 'b'], {'b': 'db', 'k': 'dk'}, ['k'], False, False, 'b', 'k', 'fn')
+    if reg == 'configurable':
+      w = gin.configurable(fn)
+      sh.call, sh.orig = w, w
+    else:
+      w = gin.external_configurable(fn, name=cname, module='c01probes')
+      sh.call, sh.orig = w, fn
+    sh.cname, sh.reg = cname, reg
+    SHAPES[cname] = sh
   # a registered method on a registered class
   ns = {'REC': REC, 'gin': gin}
   exec('class KM:\n'
